@@ -581,8 +581,8 @@ def _interpret(case):
 
 
 def subchecks(tier):
-    cost = {"generators": (400, 4000), "cp": (150, 1500), "constrained_cp_random": (100, 1000), "constrained_cp_svd": (80, 800),
-            "tucker": (150, 1500), "parafac2_tr_ttcross": (120, 1200), "svd_sampling": (300, 3000), "regressors": (160, 1600),
+    cost = {"generators": (400, 3000), "cp": (150, 1500), "constrained_cp_random": (100, 1000), "constrained_cp_svd": (80, 800),
+            "tucker": (150, 1500), "parafac2_tr_ttcross": (120, 1200), "svd_sampling": (300, 2200), "regressors": (160, 1600),
             "deterministic": (150, 1500)}
     return [SubCheck(f"history/{g}", _history(g), o_history, quick=cost[g][0], thorough=cost[g][1], case_timeout=120)
             for g in GROUPS]
